@@ -474,3 +474,72 @@ def remerge_feats(rng):
         a = m[3] + rng.choice([1, 2, 5]) if rng.random() < 0.7 else hi + rng.choice([1, 2, 9])
         new.append([seqid, rng.choice(STRANDS), ftype, a, a + rng.choice([0, 3, 8, 20])])
     return rows, first, second, new
+
+
+# -- workload classes added in round 6 --------------------------------------------------------------------------------------
+# (a) featuretypes / seqids holding characters that are special in SQL LIKE / GLOB patterns or regular expressions, with stored
+#     ids of the shape <featuretype>_<n> (no %XX sequences and no backslash: those belong to the attribute grammar, C01 / C02)
+SPECIAL_TYPES = ["CDS[partial]", "exon*", "match?", "a%b", "x_y", "[a-z]", "exon[12]", "CDS[!p]", "e.on", "ex+on", "a|b", "x_",
+                 "(exon)", "ex{2}", "^exon$"]
+SPECIAL_SEQIDS = ["chr[1]", "c*", "a%b", "s_1", "sc?", "chr.1"]
+
+
+def specialise(rng, feats, with_seqids=None):
+    """The rows with their featuretypes (and, in about half of the cases, seqids) replaced one-to-one by names holding
+    pattern characters; -> (rows, {old type: new type})."""
+    types = sorted(set(r[2] for r in feats))
+    tmap = dict(zip(types, rng.sample(SPECIAL_TYPES, len(types))))
+    seqids = sorted(set(r[0] for r in feats))
+    if with_seqids is None:
+        with_seqids = rng.random() < 0.5
+    smap = dict(zip(seqids, rng.sample(SPECIAL_SEQIDS, len(seqids)))) if with_seqids else {}
+    return [[smap.get(r[0], r[0]), r[1], tmap[r[2]], r[3], r[4]] for r in feats], tmap
+
+
+def shaped_ids(rng, feats):
+    """Unique ids of the shape <featuretype>_<n>: per featuretype n = 1, 2, 3, ... (65%), the same with holes (some n skipped),
+    or beginning at 2 / 3 (so that <featuretype>_1 is free and a later number is taken)."""
+    mode = rng.choice(["from1", "from1", "from1", "holes", "holes", "later"])
+    nxt = {}
+    out = []
+    for r in feats:
+        n = nxt.get(r[2], 1 if mode != "later" else rng.choice([2, 3]))
+        if mode == "holes" and n > 1 and rng.random() < 0.3:
+            n += rng.choice([1, 2])
+        out.append("%s_%d" % (r[2], n))
+        nxt[r[2]] = n + 1
+    return out
+
+
+# (b) criteria that answer with truthy / falsy values other than True / False: ["as", style, criterion] is `criterion` with its
+#     yes / no expressed in the values of the style; the criteria are combined as in all(): a falsy answer rejects the pair
+NONBOOL_STYLES = ["none_str", "empty_str", "empty_list", "zero_one", "match", "noreturn", "zero_float", "empty_tuple"]
+FALSY_NOT_EQUAL_FALSE = ["none_str", "empty_str", "empty_list", "match", "noreturn", "empty_tuple"]
+
+
+def nonbool(rng, desc):
+    """The criteria list with at least one criterion (each with probability 0.6) answering in a non-bool style."""
+    if not desc:
+        return desc
+    out = [["as", rng.choice(NONBOOL_STYLES), c] if rng.random() < 0.6 else c for c in desc]
+    if not any(isinstance(c, list) and c[0] == "as" for c in out):
+        k = rng.randrange(len(out))
+        out[k] = ["as", rng.choice(NONBOOL_STYLES), out[k]]
+    return out
+
+
+def nonbool_criteria(rng, tie_free=False):
+    """Criteria lists for the non-bool class: random / shaped / default-like lists, 40% with an extra reflexive custom
+    predicate, answers partly in non-bool styles.  tie_free: only criteria whose partition cannot depend on tie order."""
+    if tie_free:
+        base = list(DEFAULT) if rng.random() < 0.4 else tie_insensitive_criteria(rng)
+    else:
+        r = rng.random()
+        base = list(DEFAULT) if r < 0.3 else criteria(rng) if r < 0.8 else shaped_criteria(rng)
+        if rng.random() < 0.4:
+            base = base + [rng.choice([["custom", "start_within", rng.randrange(0, 5)], ["custom", "same_start_parity"],
+                                       ["custom", "max_members", rng.randrange(1, 4)], ["custom", "end_not_before_start"],
+                                       ["custom", "length_within", rng.randrange(0, 4)]])]
+    if not base:
+        base = ["seqid", "overlap_end_inclusive"]
+    return nonbool(rng, base)
